@@ -5,7 +5,10 @@ import EosProofs.Lemmas.WorldWF
 `Lemmas/DepCache.lean`: what `deps` lists, locality of `evalD` in exactly those nodes, and the decrease of
 the universe's rank along `deps` for a rank-well-formed universe.  No `Nodup` hypothesis is needed here:
 `item?` / `attrMeta?` pick the first entry with an id, and `readerOf` sees an item only through its id,
-kind and level. -/
+kind and level.  No hypothesis on buff effects either: the warfare-buff payload `Dyn.bspecs` enters the specs
+only through `bspecOK` (source = a warfare-buff attribute, target = the target of a buff template), and
+`rankWF` ranks exactly those reads (`reads_buff`, `reads_resist`), so *every* dynamic state has a ranked
+dependency graph. -/
 namespace Eos.Micro
 open Eos.World Eos.Calc
 
